@@ -179,30 +179,7 @@ def run(ctx) -> None:
     check_copy_freshness(ctx, "C06.R8", only_attrs=("_rename_history",))
 
     # ---- R7 ---------------------------------------------------------------------
-    n_inv = 0
-    for f in db.all_funcs():
-        if f.module.name.startswith("hypergraph.viz"):
-            continue
-        rev_vars = set()
-        for n in walk_local(f.node):
-            if isinstance(n, ast.Assign) and isinstance(n.value, ast.Call) and "build_reverse_rename_map" in call_names(db, n.value, f):
-                rev_vars |= {t.id for t in n.targets if isinstance(t, ast.Name)}
-        for n in walk_local(f.node):
-            if not isinstance(n, ast.DictComp):
-                continue
-            g = n.generators[0]
-            it = g.iter
-            src_ok = isinstance(it, ast.Call) and isinstance(it.func, ast.Attribute) and it.func.attr == "items" and ((isinstance(it.func.value, ast.Name) and it.func.value.id in rev_vars) or (isinstance(it.func.value, ast.Call) and "build_reverse_rename_map" in call_names(db, it.func.value, f)))
-            if not src_ok or not (isinstance(g.target, ast.Tuple) and len(g.target.elts) == 2):
-                continue
-            k, v = g.target.elts
-            if isinstance(n.key, ast.Name) and isinstance(v, ast.Name) and n.key.id == v.id:
-                n_inv += 1
-                # filter restricting the *current* name (k) to the node's current names
-                filt = any(isinstance(c, ast.Compare) and isinstance(c.ops[0], ast.In) and isinstance(c.left, ast.Name) and isinstance(k, ast.Name) and c.left.id == k.id and isinstance(c.comparators[0], ast.Attribute) and c.comparators[0].attr in ("outputs", "inputs") for c in g.ifs)
-                rep.add("C06.R7", f"{f.qname}", filt, f"{f.module.rel}:{n.lineno}", "inversion is restricted to the node's current names" if filt else "inverts the reverse rename map including abandoned intermediate names: after r->x, x->z, z->x the stale entry wins and values are published under a name the node no longer has")
-    if n_inv == 0:
-        rep.ok("C06.R7", "no-inversion-sites", "src/hypergraph/nodes:1", "no function inverts a reverse rename map (positive example checked in the self-test)")
+    check_inversions_over_current_names(ctx, "C06.R7")
 
 
 
@@ -233,6 +210,36 @@ def check_map_lists_follow_renames(ctx, rule: str) -> None:
                     rewritten = bool(calls)
         rep.add(rule, f"GraphNode.with_inputs:{a}", rewritten, wi.loc(), f"{a} is rewritten with the mapping applied to the inputs" if rewritten else f"{a} is validated against the inputs in map_over but not rewritten in with_inputs: after a rename it names inputs that no longer exist")
 
+
+
+def check_inversions_over_current_names(ctx, rule: str) -> None:
+    """A reverse rename map (current -> original, with entries for abandoned intermediate names) is inverted only when
+    restricted to the node's current names; the forward map for defaults/annotations is built batch by batch instead."""
+    db, rep = ctx.db, ctx.rep
+    n_inv = 0
+    for f in db.all_funcs():
+        if f.module.name.startswith("hypergraph.viz"):
+            continue
+        rev_vars = set()
+        for n in walk_local(f.node):
+            if isinstance(n, ast.Assign) and isinstance(n.value, ast.Call) and "build_reverse_rename_map" in call_names(db, n.value, f):
+                rev_vars |= {t.id for t in n.targets if isinstance(t, ast.Name)}
+        for n in walk_local(f.node):
+            if not isinstance(n, ast.DictComp):
+                continue
+            g = n.generators[0]
+            it = g.iter
+            src_ok = isinstance(it, ast.Call) and isinstance(it.func, ast.Attribute) and it.func.attr == "items" and ((isinstance(it.func.value, ast.Name) and it.func.value.id in rev_vars) or (isinstance(it.func.value, ast.Call) and "build_reverse_rename_map" in call_names(db, it.func.value, f)))
+            if not src_ok or not (isinstance(g.target, ast.Tuple) and len(g.target.elts) == 2):
+                continue
+            k, v = g.target.elts
+            if isinstance(n.key, ast.Name) and isinstance(v, ast.Name) and n.key.id == v.id:
+                n_inv += 1
+                # filter restricting the *current* name (k) to the node's current names
+                filt = any(isinstance(c, ast.Compare) and isinstance(c.ops[0], ast.In) and isinstance(c.left, ast.Name) and isinstance(k, ast.Name) and c.left.id == k.id and isinstance(c.comparators[0], ast.Attribute) and c.comparators[0].attr in ("outputs", "inputs") for c in g.ifs)
+                rep.add(rule, f"{f.qname}", filt, f"{f.module.rel}:{n.lineno}", "inversion is restricted to the node's current names" if filt else "inverts the reverse rename map including abandoned intermediate names: after r->x, x->z, z->x the stale entry wins and values are published under a name the node no longer has")
+    if n_inv == 0:
+        rep.ok(rule, "no-inversion-sites", "src/hypergraph/nodes:1", "no function inverts a reverse rename map (positive example checked in the self-test)")
 
 
 def check_translators_reach_resolver(ctx, rule: str, only_class: str | None = None) -> None:
